@@ -430,15 +430,15 @@ func sliceWritten(s *ssa.Slice) bool {
 }
 
 var hashCtor = map[string]string{
-	"crypto/sha256.New":               "sha256",
-	"crypto/sha512.New":               "sha512",
+	"crypto/sha256.New":                 "sha256",
+	"crypto/sha512.New":                 "sha512",
 	"golang.org/x/crypto/ripemd160.New": "ripemd160",
-	"crypto/sha1.New":                 "sha1",
+	"crypto/sha1.New":                   "sha1",
 }
 
 var hashFunc = map[string]string{
-	"crypto/sha256.Sum256": "sha256",
-	"crypto/sha512.Sum512": "sha512",
+	"crypto/sha256.Sum256":                                 "sha256",
+	"crypto/sha512.Sum512":                                 "sha512",
 	"github.com/gcash/bchd/chaincfg/chainhash.HashB":       "sha256",
 	"github.com/gcash/bchd/chaincfg/chainhash.HashH":       "sha256",
 	"github.com/gcash/bchd/chaincfg/chainhash.DoubleHashB": "sha256d",
